@@ -486,11 +486,25 @@ func c09PassThrough(r *rt.Run) {
 		s.Count = s.Count + 1000
 		mut["X-Count"] = fmt.Sprint(s.Count)
 	}
-	cleared := ""
-	if present["X-Note"] && mut["X-Note"] == "" && t.Bool(1, 3, "c09p.clear") {
+	// clear any subset of the known optional fields whose text form is empty when zero
+	cleared := []string{}
+	if present["X-Note"] && mut["X-Note"] == "" && t.Bool(1, 2, "c09p.clearnote") {
 		s.Note = ""
-		cleared = "X-Note"
+		cleared = append(cleared, "X-Note")
+	}
+	if present["Tags"] && t.Bool(1, 2, "c09p.cleartags") {
+		s.Tags = nil
+		cleared = append(cleared, "Tags")
+	}
+	if present["Version"] && t.Bool(1, 3, "c09p.clearver") {
+		s.Version = version.Version{}
+		cleared = append(cleared, "Version")
+	}
+	if len(cleared) > 0 {
 		r.Probe("known-field-cleared")
+	}
+	if len(cleared) > 1 {
+		r.Probe("several-known-fields-cleared")
 	}
 	w := simio.NewWriter(r, "sink")
 	err, task = c09Marshal(r, &s, w)
@@ -533,19 +547,55 @@ func c09PassThrough(r *rt.Run) {
 			r.Violate("C09/known-field-stale", "mutated/"+k, "struct field for %s was set to %q but the marshalled text has %q", k, v, b.Values[k])
 		}
 	}
-	if cleared != "" {
-		if v, ok := b.Values[cleared]; ok && v != "" {
-			r.Violate("C09/known-field-stale", "cleared/"+cleared, "struct field for %s was cleared but the marshalled text still has %q", cleared, v)
+	for _, k := range cleared {
+		if v, ok := b.Values[k]; ok && v != "" {
+			r.Violate("C09/known-field-stale", "cleared/"+k, "struct field for %s was cleared (cleared together: %v) but the marshalled text still has %q\nout:\n%q", k, cleared, v, clip(string(w.Buf), 300))
 		}
 	}
-	if present["Version"] && b.Values["Version"] == "" {
+	clearedVer := false
+	for _, k := range cleared {
+		if k == "Version" {
+			clearedVer = true
+		}
+	}
+	if present["Version"] && !clearedVer && b.Values["Version"] == "" {
 		r.Violate("C09/field-missing", "pass-through/Version", "Version vanished")
 	}
 }
 
 func c09Misc(r *rt.Run) {
 	t := r.T
-	switch t.Draw(2, "c09m.kind") {
+	switch t.Draw(3, "c09m.kind") {
+	case 2: // every element of a list of custom types decodes as it would alone
+		names := []string{"amd64", "any", "all", "kfreebsd-amd64", "linux-any", "bsd-openbsd-i386", "musl-linux-armhf", "hurd-i386", "gnu-kfreebsd-amd64"}
+		var elems []string
+		for i, n := 0, 2+t.Draw(4, "c09m.narch"); i < n; i++ {
+			elems = append(elems, names[t.Draw(len(names), "c09m.arch")])
+		}
+		type archList struct {
+			Arches []dependency.Arch `control:"Architecture"`
+		}
+		var whole archList
+		err, task := c09Unmarshal(r, &whole, []byte("Architecture: "+strings.Join(elems, " ")+"\n"))
+		if taskTrouble(r, "C09", "list/Unmarshal", task) {
+			return
+		}
+		if err != nil || len(whole.Arches) != len(elems) {
+			r.Violate("C09/list-decode", "Architecture", "err=%v, %d elements from %q", err, len(whole.Arches), elems)
+			return
+		}
+		for i, e := range elems {
+			var one archList
+			if err, _ := c09Unmarshal(r, &one, []byte("Architecture: "+e+"\n")); err != nil || len(one.Arches) != 1 {
+				r.Violate("C09/list-decode", "Architecture/single", "err=%v for %q", err, e)
+				return
+			}
+			if whole.Arches[i] != one.Arches[0] {
+				r.Violate("C09/list-element-depends-on-neighbours", "[]dependency.Arch", "element %d (%q) of %q decodes to %+v inside the list but to %+v on its own", i, e, elems, whole.Arches[i], one.Arches[0])
+				return
+			}
+		}
+		r.Probe("list-elements-independent")
 	case 0: // nested plain struct is filled by the walk
 		inner, outer, count := strings.TrimSpace(genValueText(t, "c09m.inner", false)), strings.TrimSpace(genValueText(t, "c09m.outer", false)), t.Draw(1000, "c09m.count")
 		doc := fmt.Sprintf("Outer: %s\nInner-Field: %s\nCount: %d\n", outer, inner, count)
@@ -623,5 +673,5 @@ func init() {
 		},
 		Assumptions: []string{"'optional zero fields are omitted' is demanded for fields whose text form is empty when zero (strings, lists, versions, dependencies); the pinned test suite requires false booleans to be written as 'no', and zero integers are written as '0'", "architecture values are restricted to names whose String() form re-parses to the same value (wildcard and three-part names lose information in Arch.String, which belongs to the not-applicable properties C05/C06)"},
 	})
-	propProbes["C09"] = []string{"required-empty-list", "multi-line-string-field", "paragraph-api", "missing-required-field", "unknown-fields-present", "known-field-cleared", "nested-plain-struct", "pointer-fields"}
+	propProbes["C09"] = []string{"list-elements-independent", "several-known-fields-cleared", "required-empty-list", "multi-line-string-field", "paragraph-api", "missing-required-field", "unknown-fields-present", "known-field-cleared", "nested-plain-struct", "pointer-fields"}
 }
